@@ -83,6 +83,7 @@ TG_PARTS = {
             ["cropTg", "eraseTg", "spaceTg", "editTg", "appendTg", "mergeTg", "newTg", "saveTg", "validateTg"], ["C13_"]),
 }
 
+FLOAT_LEVEL_CLAUSES = {"C05_raw_float_wellformed", "C05_validate_agrees", "C05_raises_praatio_error"}
 MC_INVARIANTS = ["NoFail", "RecvWF", "EmitInv"]
 MC_PROPERTIES = ["CopyOpsPure", "FailedMutatorNoChange", "ArgNeverChanges"]
 
@@ -465,7 +466,7 @@ def check(prop, tier):
         rel = relevant_fn(prop, cfg)
         BATCH = 250000
 
-        def process(events, sample=False):
+        def process(events, sample=False, rel=rel):
             events, bad = T.split_broken(events)
             for e in bad:
                 res.violations.append((prop + "_api_call_sequence_crashed_outside_the_call_under_test", e))
@@ -505,6 +506,14 @@ def check(prop, tier):
         if nh:
             process(run_histories(prop, cfg, nh, common.SEED, 0))
             process(sim_histories(prop, cfg, tier, work, res, max(50, nh // 4), 0))
+            if prop == "C05":
+                # histories under the decimal embedding: rounding noise accumulates on the live object while the arguments
+                # come fresh from the grid, so boundaries one ulp apart meet.  The grid model has nothing to say about such
+                # states; only the float-level clauses (computed on the real floats) are judged.
+                process(run_histories(prop, cfg, nh * 2, common.SEED + 1, 0, embname="dec", poolname="uni"),
+                        rel=lambda c: c in FLOAT_LEVEL_CLAUSES)
+                process(run_histories(prop, cfg, nh // 2, common.SEED + 2, 0, embname="c7", poolname="ascii"),
+                        rel=lambda c: c in FLOAT_LEVEL_CLAUSES)
         # the Textgrid-level counterparts named by the property
         if prop in TG_PARTS:
             from . import checks_tg
